@@ -7,6 +7,7 @@ import (
 	"strings"
 
 	sdk "github.com/cosmos/cosmos-sdk/types"
+	authtypes "github.com/cosmos/cosmos-sdk/x/auth/types"
 	authzkeeper "github.com/cosmos/cosmos-sdk/x/authz/keeper"
 	distrkeeper "github.com/cosmos/cosmos-sdk/x/distribution/keeper"
 	"github.com/ethereum/go-ethereum/common"
@@ -265,6 +266,17 @@ func puppetCompileFor(tokens []string, ref *puppetRef, val string, E, puppetAddr
 				out = append(out, puppetCall(1, stk, big.NewInt(0), in)...)
 				st.dP.Sub(st.dP, amt)
 				st.bondP.Add(st.bondP, amt)
+				if inReverted {
+					sc.precompileInReverted = true
+				}
+			case f[0] == "Z":
+				// zero-value CALL to a module account (touches the account)
+				out = append(out, puppetCall(0, common.BytesToAddress(authtypes.NewModuleAddress(f[1]).Bytes()), big.NewInt(0), nil)...)
+			case f[0] == "U":
+				amt := mustBig(f[1])
+				in, _ := sabi.Pack("undelegate", E, val, amt)
+				out = append(out, puppetCall(0, stk, big.NewInt(0), in)...)
+				st.bondE.Sub(st.bondE, amt)
 				if inReverted {
 					sc.precompileInReverted = true
 				}
